@@ -526,6 +526,8 @@ class H2cUpgradeParser:
         if self.status == 101:
             self.switched = True
             self.peer.upgraded_101 = head
+            # wire offsets stay relative to the start of the connection's byte stream
+            self.peer.wire_offset += len(head)
             if rest:
                 self.peer.feed(rest)
         else:
